@@ -14,7 +14,7 @@ CHECKS = {
  "C01": dict(level="model_checking", engine="E-HIST", design="5/C01",
    technique="explicit-state BFS over the real dhcp::handle_pkt + SQLite store (exact-state dedup), oracle on every transition",
    text="Every history over the message/config/clock alphabet up to the completed depth is executed on the real handler and real SQLite store; the double-lease oracle is evaluated on every transition, each on a freshly opened store (restart between any two messages).",
-   note="Bounds: <=3 clients, <=5 configurations with 1-2 address pools, depth as reported. Trusted: SQLite, the clock interposition, time-shift invariance of pool.rs (argued in DESIGN.md 2)."),
+   note="Bounds: <=3 clients, <=5 configurations with 1-2 address pools, depth as reported, from 5 roots (the empty store and 4 stores that long histories reach: 24 h leases mid-life and expired, two clients). Trusted: SQLite, the clock interposition, time-shift invariance of pool.rs (argued in DESIGN.md 2)."),
  "C09": dict(level="model_checking", engine="E-HIST", design="5/C09",
    technique="explicit-state BFS over the real dhcp::handle_pkt + SQLite store, keep-your-address and exhaustion oracles on every transition",
    text="Same search as C01; on every transition the reply (or refusal) is compared with the set of unexpired leases the client holds inside the pool it is served from, the pool being stated independently by the harness per configuration.",
@@ -22,9 +22,9 @@ CHECKS = {
  "C10": dict(level="model_checking", engine="E-HIST", design="5/C10",
    technique="explicit-state BFS over the real dhcp::handle_pkt + SQLite store with renewal-rhythm clock steps, lease-time oracle on every reply",
    text="Every OFFER/ACK produced anywhere in the explored history space is checked for option 51, its bounds and its agreement with the recorded row.",
-   note="Bounds 300..86400 are the defaults; no configuration key reaches minlease/maxlease in this tree."),
+   note="Bounds 300..86400 are the defaults; no configuration key reaches minlease/maxlease in this tree. The 24 h cap is only reachable after ~9 doublings, so the search also starts from stores holding long leases (deep roots) and has 30000 s / 100000 s clock steps."),
  "C13": dict(level="model_checking", engine="E-HIST", design="5/C13",
-   technique="explicit-state BFS plus an exhaustive probe set (all 256 message types x server-id shapes x interfaces) applied to every reachable state up to the probe depth",
+   technique="explicit-state BFS plus an exhaustive probe set (all 256 message types x server-id shapes x interfaces x clients, header variants, ciaddr set/unset for the types that read it) applied to every reachable state up to the probe depth",
    text="Every reachable store up to the probe depth is hit with every message-type value, malformed type options and server-id shapes; replies only for DISCOVER/REQUEST-for-us, unchanged store otherwise, echo fields and server identifier on every reply.",
    note="A server-identifier option whose length is not 4 is treated as don't-care (the statement does not define it)."),
  "C12": dict(level="exploration", engine="E-ENUM", design="5/C12",
@@ -53,8 +53,8 @@ CHECKS = {
    note="One exchange per execution, no faults (faults are C07's). A relayed REFUSED over UDP that the REFUSED limiter suppresses is not judged here (C16). [::1] listener and client."),
  "C07": dict(level="model_checking", engine="E-NET", design="5/C07",
    technique="deviation-bounded exhaustive exploration (stateless DFS with prefix replay, iterated bounds) of environment event schedules against the live in-process DnsService under a paused clock; choice points: client sends, upstream deliveries and fault variants, ticks, upstream query id and retry jitter (hooks)",
-   text="For 7 scenarios (1-3 queries in flight, UDP/TCP/UDP-pushed-to-TCP, same and different names) every schedule with at most the stated number of deviations (drop, hold until retransmission, duplicate, foreign id, TC, non-FIFO, TCP frame in two parts, upstream close, id collision, max jitter, delay) is executed to a 130 s virtual horizon; each query must get exactly one reply from the address it was sent to, carrying the answer scripted for its own question, SERVFAIL only when the environment really lost its replies. Plus all listener families x client families x transports, and the pure in_addr conversion over 625 addresses.",
-   note="Await-granularity schedules on one worker thread; <=3 queries in flight; 100 ms tick quantum. Harness-side exchange bookkeeping decides when SERVFAIL is acceptable."),
+   text="For 10 scenarios (1-6 queries in flight, UDP/TCP/UDP-pushed-to-TCP, same and different names) every schedule with at most the stated number of deviations (drop, hold until retransmission, duplicate, foreign id, TC, non-FIFO, TCP frame in two parts, two TCP replies coalesced in one write, upstream close, id collision, max jitter, delay) is executed to a 130 s virtual horizon; each query must get exactly one reply from the address it was sent to, carrying the answer scripted for its own question, SERVFAIL only when the environment really lost its replies. Plus all listener families x client families x transports, and the pure in_addr conversion over 625 addresses.",
+   note="Await-granularity schedules on one worker thread; <=6 queries in flight (deviation bound lower for the largest scenarios); 100 ms tick quantum. Harness-side exchange bookkeeping decides when SERVFAIL is acceptable."),
  "C15": dict(level="exploration", engine="E-NET", design="5/C15",
    technique="exhaustive enumeration of written route tables (suffix subsets x partitions into routes x types x every route order x every suffix order) each served by a live in-process DnsService with one scripted upstream per forward route, queried with a fixed name set x RD",
    text="For every written table the rcode seen by the client and which upstream (if any) received the query are compared with an independent longest-whole-label-suffix, ASCII-case-insensitive reference; since every permutation of the same table is generated, permutation invariance is decided too.",
@@ -64,7 +64,7 @@ CHECKS = {
    text="require_permission is decided for every rule list of length <=3 over a 180-rule alphabet (lengths 4-6 over a sub-alphabet) x 25 clients x 4 operations; the entry points are exercised for real: DNS over TCP from 4 source addresses (refused => upstream saw nothing, cached answer not served) and HTTP over v4, v6, v4-mapped and unix-socket clients x 4 paths.",
    note="A plain IPv4 client against an IPv6 prefix that merely covers ::ffff:0:0/96 (e.g. ::/0) is don't-care. Unknown HTTP paths may answer 403 or 404."),
  "C16": dict(level="model_checking", engine="E-HIST-style + E-NET", design="5/C16",
-   technique="exhaustive enumeration of arrival/advance histories on the real IpRateLimiter under the virtual clock (volume-bound and idle-grant oracles on every history), plus the live service: volume patterns counted at the client and the full cookie matrix",
+   technique="exhaustive enumeration of arrival/advance histories on the real IpRateLimiter under the virtual clock (volume-bound and idle-grant oracles on every history), plus the live service: every arrival/advance history of length <=3 (thorough 4) over three reply sizes x EDNS with REFUSED datagrams counted and sized at the client and every window judged in octets, three long volume patterns, and the full cookie matrix",
    text="Every history up to the stated depth over an alphabet derived from the limiter's own constants is executed on the real limiter; on the live service REFUSED datagrams are counted and sized at the client, and a server cookie is presented under every combination of client cookie, source address, server address, 0/1/2 key rotations and cookie length with the source's bucket emptied first, so only an exemption can produce a reply.",
    note="Single-threaded: the read-lock/write-lock window between check and deplete under a multi-threaded runtime is not explored. Rotation is lazy; a silent gap over several periods is don't-care."),
  "C06": dict(level="model_checking", engine="E-ENUM (paused clock) + E-NET", design="5/C06",
@@ -78,7 +78,7 @@ CHECKS = {
  "C20": dict(level="model_checking", engine="E-HIST + HTTP rig", design="5/C20",
    technique="explicit-state BFS over handle_pkt to enumerate reachable lease stores, each read at boundary clocks through the real /metrics endpoint; plus exhaustive enumeration of host-name / client-identifier octets through real DISCOVERs and the real lease listing, parsed by a strict JSON parser",
    text="Gauges are compared with the store for every reachable store of the search and every clock value at each row's expiry -1/+0/+1 (and the empty store after non-empty ones); the listing is requested from the real HTTP API over the unix control socket for stores holding one lease per enumerated host-name/identifier value and compared entry by entry with the rows.",
-   note="expiry == now may be counted either way. The DhcpService is built by the verif_new hook (ephemeral UDP port instead of 67)."),
+   note="The boundary instant is judged exactly as stated (expiry <= now is expired). The DhcpService is built by the verif_new hook (ephemeral UDP port instead of 67)."),
  "C02": dict(level="exploration", engine="E-ENUM + drain histories", design="5/C02",
    technique="bounded-exhaustive enumeration of configurations (every prefix length x server/reserved address placement; policy trees over a 16-address universe) through the real YAML loader; pools observed by build_default_config and by draining the real handle_pkt with fresh clients until exhaustion, compared with an independent reference of the documented sets",
    text="For the addresses form the computed pool must equal hosts - server - reserved for every prefix length; for policy trees every (tree, hardware address) pool is drained through the real handler and the set of addresses handed out must equal the documented pool (own addresses minus everything added by sub-policies, first matching sibling, condition-less policies apply iff a sub-policy does).",
